@@ -95,5 +95,8 @@ ExprNames == Lists \cup {"expr;", "a", "b", "null", "undefined", "0", "'s'", "a(
                          "out(_)", "typeof", "void", "neg", "==null", "a?.b"}
 NullishNames == Lists \cup {"expr;", "return", "a", "b", "p", "undefined", "null", "a.b", "a?.b", "a?.b.c", "a?.b()", "a?.()", "_.b", "_?.b", "??",
                             "==null", "===undefined", "?:", "||", "&&", "out(_)", "f(_)", "a(_)", "void", "0"}
+\* statement nesting (dangling else): if / if-else / loop nests with branch bodies that can (out(..);) and cannot (loops)
+\* become expressions
+NestNames == {"prog", "one", "expr;", "if", "ifelse", "for2", "a", "b", "0", "1", "out(_)"}
 AllEnabled == AllNames
 =============================================================================
